@@ -9,7 +9,7 @@
 use dlt_core::dlt::*;
 use dlt_core::parse::DltParseError;
 use dlt_core::read::DltMessageReader;
-use dlt_core::statistics::common::{LevelDistribution, StatisticInfo};
+use dlt_core::statistics::common::{LevelDistribution, StatisticInfo, StatisticInfoCollector};
 use dlt_core::statistics::{collect_statistics, Statistic, StatisticCollector};
 
 fn any_opt_level() -> Option<LogLevel> {
@@ -338,3 +338,129 @@ fn c10_merge_ecu_only_part() {
     kani::cover!(true);
     std::mem::forget(a);
 }
+
+
+// ---- the standard collector (id tables modelled, see registry / DESIGN 9.7) -------------
+const CIDS: [&str; 3] = ["NONE", "A1", "B2"];
+// index 3 (used by the collector scenarios) stands for the empty id
+
+fn lookup_id(t: &Vec<(String, LevelDistribution)>, id: &str) -> ([usize; 8], usize) {
+    let mut out = [0usize; 8];
+    let mut hits = 0;
+    let mut i = 0;
+    while i < t.len() {
+        if t[i].0.as_bytes() == id.as_bytes() {
+            out = as_array(&t[i].1);
+            hits += 1;
+        }
+        i += 1;
+    }
+    (out, hits)
+}
+
+fn std_header(ecu: Option<String>, ext: bool) -> StandardHeader {
+    StandardHeader { version: 1, endianness: Endianness::Little, has_extended_header: ext, message_counter: kani::any(), ecu_id: ecu,
+                     session_id: None, timestamp: None, payload_length: 0 }
+}
+
+/// One message of a scenario: ECU id (index into CIDS; 0 = absent, 3 = present but empty), extended header
+/// present?, application id, context id (indices into CIDS).
+#[derive(Clone, Copy)]
+struct Step {
+    ecu: usize,
+    ext: bool,
+    app: usize,
+    ctx: usize,
+}
+const fn st(ecu: usize, ext: bool, app: usize, ctx: usize) -> Step {
+    Step { ecu, ext, app, ctx }
+}
+
+fn cid(k: usize) -> String {
+    // index 3: an id field that decodes to the empty string (starts with NUL)
+    String::from(if k == 3 { "" } else { CIDS[k] })
+}
+
+/// The messages of a concrete id scenario through StatisticInfoCollector::collect_statistic, then collect():
+/// the result equals an independent tally. Which ids occur in which order is the (enumerated) scenario;
+/// per message the level (None / 6 levels / Invalid(any)) and the verbose flag are symbolic.
+fn collector_tally(steps: &[Step]) {
+    let mut c = StatisticInfoCollector::default();
+    // tallies indexed like CIDS, index 3 = the empty id
+    let mut ecu_t = [[0usize; 8]; 4];
+    let mut app_t = [[0usize; 8]; 4];
+    let mut ctx_t = [[0usize; 8]; 4];
+    let mut nonverbose = false;
+    let mut step = 0;
+    while step < steps.len() {
+        let s = steps[step];
+        let level = any_opt_level();
+        let verbose: bool = kani::any();
+        let b = bucket(&level);
+        let ecu = if s.ecu == 0 { None } else { Some(cid(s.ecu)) };
+        let eh = if s.ext {
+            Some(ExtendedHeader { verbose, argument_count: 0, message_type: MessageType::Log(LogLevel::Info), application_id: cid(s.app), context_id: cid(s.ctx) })
+        } else {
+            None
+        };
+        let r = c.collect_statistic(Statistic { log_level: level, storage_header: None, standard_header: std_header(ecu, s.ext),
+                                                extended_header: eh, payload: &[], is_verbose: verbose });
+        assert!(r.is_ok());
+        std::mem::forget(r);
+        ecu_t[s.ecu][b] += 1;
+        if s.ext {
+            app_t[s.app][b] += 1;
+            ctx_t[s.ctx][b] += 1;
+        }
+        nonverbose = nonverbose || !verbose;
+        step += 1;
+    }
+    let info = c.collect();
+    let mut total = 0;
+    let mut k = 0;
+    while k < 4 {
+        let name = if k == 3 { "" } else { CIDS[k] };
+        let (e, eh) = lookup_id(&info.ecu_ids, name);
+        let (a, ah) = lookup_id(&info.app_ids, name);
+        let (x, xh) = lookup_id(&info.context_ids, name);
+        let (mut se, mut sa, mut sx) = (0, 0, 0);
+        let mut i = 0;
+        while i < 8 {
+            assert!(e[i] == ecu_t[k][i], "ECU id tally differs");
+            assert!(a[i] == app_t[k][i], "application id tally differs");
+            assert!(x[i] == ctx_t[k][i], "context id tally differs");
+            se += ecu_t[k][i];
+            sa += app_t[k][i];
+            sx += ctx_t[k][i];
+            i += 1;
+        }
+        assert!(eh == (se > 0) as usize && ah == (sa > 0) as usize && xh == (sx > 0) as usize, "an id is listed twice, or listed without messages, or missing");
+        total += se;
+        k += 1;
+    }
+    assert!(total == steps.len(), "ECU totals do not add up to the number of messages");
+    assert!(info.contained_non_verbose == nonverbose, "non-verbose flag differs from the tally");
+    kani::cover!(info.contained_non_verbose, "a non-verbose message occurred");
+    kani::cover!(!info.contained_non_verbose, "only verbose messages");
+    std::mem::forget(info);
+}
+
+macro_rules! c10_collector {
+    ($name:ident, $steps:expr) => {
+        #[kani::proof]
+        #[kani::unwind(10)]
+        fn $name() {
+            collector_tally(&$steps);
+        }
+    };
+}
+// same ECU twice, two contexts of one application, then a message without ECU id and without extended header
+c10_collector!(c10_collector_s1, [st(1, true, 1, 1), st(1, true, 1, 2), st(0, false, 0, 0)]);
+// no ECU id ("NONE") with extended header, an ECU-only message, the first ids again
+c10_collector!(c10_collector_s2, [st(0, true, 2, 1), st(2, false, 0, 0), st(0, true, 2, 1)]);
+// an ECU id field that decodes to the empty string is an id of its own, not "NONE"
+c10_collector!(c10_collector_s3, [st(3, true, 1, 1), st(0, false, 0, 0), st(3, false, 0, 0)]);
+// two ECUs alternating, application / context ids crossing ("A1" is an application here and a context there)
+c10_collector!(c10_collector_s4, [st(1, true, 1, 2), st(2, true, 2, 1), st(1, true, 1, 2)]);
+// a single message
+c10_collector!(c10_collector_s0, [st(1, true, 2, 2)]);
